@@ -21,7 +21,7 @@ def discharge(ex, o, timeout_ms=10000, seed=0, want_model=True):
     if o.status == 'proved':
         return
     t0 = time.time()
-    axioms = ex.m.string_axioms()
+    axioms = ex.m.string_axioms() + list(ex.axioms)
     if ex.uses_psum:
         from . import specfuns
         axioms = axioms + specfuns.psum_axioms(ex.spec)
@@ -92,7 +92,7 @@ def extract_model(ex, model):
 
 def to_smt2(ex, o):
     s = z3.Solver()
-    for a in ex.m.string_axioms():
+    for a in ex.m.string_axioms() + list(ex.axioms):
         s.add(a)
     if ex.uses_psum:
         from . import specfuns
